@@ -233,7 +233,7 @@ TypeOK ==
 
 Durable == disk = sec                                       \* C03: every acknowledged change is on disk
 
-\* C05: the key-encryption key is used only when the database is opened or created.
+\* C05: the key-encryption key is consulted only when the database is opened or created (kek = 1: consulted, however often).
 KekOnlyAtOpen == last.kek = (IF last.op \in {"reopen", "create"} THEN 1 ELSE 0)
 
 \* C06 (state part): a call that returned a value or reported success of a mutation
